@@ -37,6 +37,10 @@ def one_linear(ctx: Ctx, spec, dtype):
     if any(all(v == 0 for v in r) for r in J):
         return
     Jt = to_tensor(J, torch.float64)
+    # overall scale of the matrix: tiny gradients must weigh in proportionally too
+    expo = rng.choice([0, 0, -6, 6, -10]) if dtype == torch.float64 else rng.choice([0, 0, -4, 4])
+    Jt = Jt * (10.0 ** expo)
+    ctx.count("matrix_scale_exponent", expo)
     pv = None
     if spec.pref == "weights":
         pv = [rng.choice([-2, -1, 1, 2, 3]) for _ in range(m)]
